@@ -137,6 +137,25 @@ CheckOptions(opts, sg) ==
        ELSE [opts |-> opts, sing |-> r.sing]
   ELSE [opts |-> opts, sing |-> r.sing]
 
+\* HandleOptions of a backend as a function
+RECURSIVE RunB(_, _, _, _, _)
+RunB(c, sg, g, as, i) ==
+  IF i > Len(as) THEN LET p == Post(c) IN R(p.cu, sg, g, p.err)
+  ELSE LET r == HandleArg(c, sg, g, as[i]) IN
+       IF r.err THEN r ELSE RunB(r.cu, r.sing, r.given, as, i + 1)
+ObsOf(r) == Outcome([on |-> r.cu.on \cup (IF r.sing[r.cu.sty] THEN {} ELSE {"ignore_initialisms"}),
+                     style |-> r.cu.sty, tmpl |-> r.cu.tmpl, given |-> r.given, prefix |-> r.cu.prefix,
+                     repl |-> r.cu.repl, err |-> r.err])
+\* Beyond the statement (one option list): sdk.InvokeThriftgo with two -g targets.  Targets() runs
+\* checkOptions for both, then the backends run one after the other (each generates before the
+\* next starts); the naming style objects are shared by all four CodeUtils.
+TwoTargets(t1, t2) ==
+  LET c1 == CheckOptions(t1, Sing0)
+      c2 == CheckOptions(t2, c1.sing)
+      b1 == RunB(NewCU, c2.sing, FALSE, Pack(c1.opts), 1)
+      b2 == RunB(NewCU, b1.sing, FALSE, Pack(c2.opts), 1)
+  IN <<ObsOf(b1), ObsOf(b2)>>
+
 ----------------------------------------------------------------------------
 (* the refinement mapping                                                   *)
 
